@@ -68,8 +68,9 @@ XRAY_DEFINED = {"abs", "sign", "indicator"}
 
 class Gen:
     def __init__(self, seed, max_depth=4, n_decls=8, p_err=0.08, p_disp=0.15, callbacks=True,
-                 native_only=False):
+                 native_only=False, scope_heavy=False):
         self.native_only = native_only
+        self.scope_heavy = scope_heavy
         self.r = random.Random(seed)
         self.max_depth = max_depth
         self.n_decls = n_decls
@@ -374,6 +375,10 @@ class Gen:
             else:
                 t = self.random_type()
                 n = self.fresh("x")
+                if self.scope_heavy and sc["vars"] and r.random() < 0.3:
+                    # shadow an earlier top-level binding: earlier uses keep their meaning
+                    n = r.choice([v[0] for v in sc["vars"]])
+                    sc["vars"] = [v for v in sc["vars"] if v[0] != n]
                 e = self.expr(t, 0, sc)
                 decls.append({"k": "let", "n": n, "e": e, "ty": tyname(t), "annot": r.random() < 0.5})
                 sc["vars"].append((n, t))
@@ -395,9 +400,11 @@ class Gen:
                 p["def"] = self.expr(t, self.max_depth - 1, sc)
             ps.append(p)
         rt = r.choice([INT, INT, BOOL, STR, seq(INT), opt(INT)])
+        if self.scope_heavy and r.random() < 0.35:
+            rt = fn([r.choice([INT, BOOL])], r.choice([INT, BOOL, STR]))     # an escaping closure
         inner = {"vars": sc["vars"] + [(p["n"], t) for p, t in zip(ps, pts)], "fns": list(sc["fns"])}
         idecls = []
-        if r.random() < 0.25 and getattr(self, "_nest", 0) < 2:
+        if r.random() < (0.7 if self.scope_heavy else 0.25) and getattr(self, "_nest", 0) < (4 if self.scope_heavy else 2):
             self._nest = getattr(self, "_nest", 0) + 1
             try:
                 idecls.append(self.fndecl(inner))      # nested function: a closure over this scope
@@ -411,7 +418,15 @@ class Gen:
             inner["vars"] = [v for v in inner["vars"] if v[0] != ln]
             idecls.append({"k": "let", "n": ln, "e": self.expr(t, 1, inner), "ty": tyname(t), "annot": False})
             inner["vars"].append((ln, t))
-        body = self.expr(rt, 1, inner)
+        if tag(rt) == "fn":
+            # return a nested function (by name) or a lambda: both capture this frame
+            cands = [f for f in inner["fns"] if f not in sc["fns"] and list(f[1]) == list(rt[1]) and f[2] == rt[2] and f[3] == 0]
+            if cands and r.random() < 0.6:
+                body = {"k": "var", "n": r.choice(cands)[0]}
+            else:
+                body = self.lam(list(rt[1]), rt[2], 1, inner)
+        else:
+            body = self.expr(rt, 1, inner)
         sc["fns"].append((n, pts, rt, ndef))
         return {"k": "fn", "n": n, "ps": ps, "rty": tyname(rt), "decls": idecls, "ret": body, "ovl": False}
 
@@ -504,6 +519,9 @@ def rdecl(d):
                        for p in d["ps"])
         body = "".join("    " + rdecl(x) + "\n" for x in d["decls"])
         return "fn %s(%s)->%s {\n%s    %s\n}" % (d["n"], ps, d["rty"], body, rexpr(d["ret"]))
+    if k == "fwd":
+        ps = ", ".join("%s: %s" % (p["n"], p["ty"]) for p in d["ps"])
+        return "forward fn %s(%s)->%s;" % (d["n"], ps, d["rty"])
     if k == "struct":
         return "struct %s(%s)" % (d["n"], ", ".join("%s: %s" % (f, t) for f, t in d["fields"]))
     if k == "union":
